@@ -1,6 +1,7 @@
 package checks
 
 import (
+	"bytes"
 	"encoding/hex"
 	"encoding/json"
 	"fmt"
@@ -28,7 +29,77 @@ func cellCall(buf []byte, pos int, typ byte, meta uint16, unsigned bool) (r cell
 	r.pan = core.Guard(func() {
 		r.out, r.n, r.err = replication.CellBytes(buf, pos, typ, meta, unsigned)
 	})
+	if r.pan == "" && r.err == nil && heldFresh(typ, meta) {
+		heldPush(typ, meta, r.out)
+	}
 	return r
+}
+
+// ---- held results: a value handed out by the decoder must not change when
+// later values are decoded (shared scratch buffers, caches, pools). Only types
+// whose result is freshly formatted text are held; verbatim types return a
+// window of the caller's own buffer.
+
+type heldVal struct {
+	typ  byte
+	meta uint16
+	orig []byte
+	copy []byte
+}
+
+var held struct {
+	ring    [8]heldVal
+	n       int
+	changed []string // findings, drained by heldDrain
+}
+
+func heldFresh(typ byte, meta uint16) bool {
+	switch typ {
+	case replication.TypeTiny, replication.TypeShort, replication.TypeInt24, replication.TypeLong, replication.TypeLongLong,
+		replication.TypeFloat, replication.TypeDouble, replication.TypeYear, replication.TypeNewDecimal,
+		replication.TypeDate, replication.TypeNewDate, replication.TypeTime, replication.TypeDateTime, replication.TypeTimestamp,
+		replication.TypeTime2, replication.TypeDateTime2, replication.TypeTimestamp2, replication.TypeJSON, replication.TypeEnum:
+		return true
+	case replication.TypeString:
+		t := byte(meta >> 8)
+		return t == replication.TypeEnum || t == replication.TypeSet
+	}
+	return false
+}
+
+func heldPush(typ byte, meta uint16, out []byte) {
+	for i := 0; i < len(held.ring) && i < held.n; i++ {
+		h := &held.ring[i]
+		if h.orig != nil && !bytes.Equal(h.orig, h.copy) && len(held.changed) < 4 {
+			held.changed = append(held.changed, fmt.Sprintf("a value of type %d (meta %d) decoded earlier as %q now reads %q after a later decode of type %d (meta %d)",
+				h.typ, h.meta, clip(h.copy), clip(h.orig), typ, meta))
+			h.copy = append(h.copy[:0], h.orig...)
+		}
+	}
+	if len(out) == 0 {
+		return
+	}
+	h := &held.ring[held.n%len(held.ring)]
+	h.typ, h.meta, h.orig = typ, meta, out
+	h.copy = append(h.copy[:0], out...)
+	held.n++
+}
+
+func clip(b []byte) []byte {
+	if len(b) > 80 {
+		return b[:80]
+	}
+	return b
+}
+
+// heldReport turns held-result findings into violations (call now and then).
+func heldReport(c *core.Ctx) {
+	heldPush(0, 0, nil) // verify what is still held
+	c.Note("held_results_checked", int64(held.n))
+	for _, m := range held.changed {
+		c.Violation("value-changed-by-later-decode", m, map[string]string{"finding": m})
+	}
+	held.changed = nil
 }
 
 // cellEmbed returns pre|enc|suf and the position of enc.
